@@ -18,6 +18,7 @@ def hasSideEffects : E → Bool
   | lit _ => false
   | call _ _ => true
   | group x => hasSideEffects x
+  | opt _ _ => true   -- a member/call chain
   | dot _ _ => true
   | index _ _ => true
   | .cond c x y => hasSideEffects c || hasSideEffects x || hasSideEffects y
@@ -193,7 +194,10 @@ def toNullish (c x y : E) : Nullish :=
       .yes (bin .nullish (groupExpr right BOp.nullish.left) (groupExpr left BOp.nullish.right))
     else if isUndefined left then
       let cb := chainBase right
-      if cb.2 && isEqualExpr (var v) cb.1 then .unmodelled else .no
+      if cb.2 && isEqualExpr (var v) cb.1 then
+        -- `a==null?undefined:a.b.c` ⇒ `a?.b.c`: the `Optional` flag is set on the innermost link of the chain
+        (if v == "undefined" || v == "NaN" then .unmodelled else .yes (opt v right))
+      else .no
     else .no
   | none => .no
 
